@@ -43,7 +43,8 @@ Next ==
           IF ev.op = "construct"
           THEN IF ev.abs = O!Init0(Rec.family) THEN Adv(ev.abs) ELSE Reject("TwinBinding", "construct", l)
           ELSE IF ev.op = "mutate"
-          THEN IF <<ev.m, ev.v>> \notin O!Alphabet(Rec.family) THEN Reject("Alphabet", ev.m, l)
+          THEN IF <<ev.m, ev.v>> \notin O!Alphabet(Rec.family) \/ ~O!Enabled(Rec.family, st, <<ev.m, ev.v>>)
+               THEN Reject("Alphabet", ev.m, l)
                ELSE IF ev.exc # "" THEN Reject("Applicable", ev.m \o ":" \o ev.exc, l + 1)
                ELSE Adv(O!Apply(Rec.family, st, <<ev.m, ev.v>>))
           ELSE IF ev.abs # st THEN Reject("TwinBinding", "observe", l)
